@@ -91,6 +91,9 @@ def run_group(rep, prog, cprog, gname, seeds, patterns, expect_ret, entries, c_e
         rep.ob('R-DEG(%s)' % gname, '%s:%s result' % (modname, q), got == want, 'result has degree %s (expected %s)' % (got, want), prog.mod(modname).rel if modname != 'C' else 'dadi', 0,
                what='declared result degree under %s' % gname)
     rep.extra['functions_analysed_%s' % gname] = len(ctx.analysed_functions)
+    for w_ in ctx.analysed_functions:
+        if w_.split(':')[0].endswith('.py'):
+            rep.saw_function(w_)
     return ctx
 
 
